@@ -169,7 +169,7 @@ func gluonPath(fr []string) string {
 
 func runC19(ctx *common.Ctx) error {
 	res := ctx.Res
-	res.Rule = "SEARCH (not proof): stress scenarios under the race detector; one evaluation = one scenario (11 concurrent sessions of 2 users on shared and own mailboxes, random commands, connector updates, session ends in every protocol state, RemoveUser and Close racing with all of it); non-trivial = distinct scenarios in which RemoveUser and Close both ran while sessions were active (always) and in which the teardown variants differ (late dial, files removed, connector pushing)"
+	res.Rule = "SEARCH (not proof): stress scenarios under the race detector; one evaluation = one scenario (two of them: async.QueuedChannel queues closed while readers and producers are busy, with and without the race detector; the others: 11 concurrent sessions of 2 users on shared and own mailboxes, random commands, connector updates, session ends in every protocol state, RemoveUser and Close racing with all of it); non-trivial = distinct scenarios in which RemoveUser and Close both ran while sessions were active (always) and in which the teardown variants differ (late dial, files removed, connector pushing)"
 	if ctx.Replay != "" {
 		if b, err := os.ReadFile(ctx.Replay); err == nil {
 			var rp struct {
@@ -191,6 +191,70 @@ func runC19(ctx *common.Ctx) error {
 		return fmt.Errorf("go build -race of the stress child failed: %v\n%s", err, outb)
 	}
 	res.Notes = append(res.Notes, fmt.Sprintf("go build -race: %.1fs", time.Since(t0).Seconds()))
+
+	// 1b. the QueuedChannel stress: a plain build for volume (the lost wake-up needs Close to fall into a window of a few
+	// nanoseconds; without the race detector 60000 queues take about a second), and a smaller run under the race detector
+	plain := filepath.Join(ctx.Out, "c19plain")
+	build2 := exec.Command("go", "build", "-tags", "verif", "-o", plain, "./cmd/c19child")
+	build2.Dir = harnessDir()
+	build2.Env = build.Env
+	if outb, err := build2.CombinedOutput(); err != nil {
+		return fmt.Errorf("go build of the stress child failed: %v\n%s", err, outb)
+	}
+	for qi, q := range []struct {
+		bin  string
+		n    int
+		race bool
+	}{{plain, ctx.Budget(60000, 600000), false}, {bin, ctx.Budget(6000, 60000), true}} {
+		seed := ctx.Seed*1000 + int64(ctx.Rng.Intn(900)) + int64(qi)
+		dir := filepath.Join(ctx.Out, fmt.Sprintf("queues%d", qi))
+		os.RemoveAll(dir)
+		os.MkdirAll(dir, 0o755)
+		scen := map[string]interface{}{"queue_stress": true, "seed": seed, "queues": q.n, "race_detector": q.race,
+			"how": fmt.Sprintf("c19child -queues %d -queues-only -seed %d -out DIR (built %s -race)", q.n, seed, map[bool]string{true: "with", false: "without"}[q.race])}
+		ctx.Current(fmt.Sprintf("queue stress seed=%d n=%d race=%v", seed, q.n, q.race), scen)
+		cmd := exec.Command(q.bin, "-queues", fmt.Sprint(q.n), "-queues-only", "-seed", fmt.Sprint(seed), "-out", dir)
+		cmd.Env = append(os.Environ(), "GORACE=halt_on_error=0 exitcode=0 history_size=3 log_path="+filepath.Join(dir, "race"))
+		outb, werr := cmd.CombinedOutput()
+		res.Evaluations++
+		var cr childReport
+		b, rerr := os.ReadFile(filepath.Join(dir, "child.json"))
+		if rerr == nil {
+			rerr = json.Unmarshal(b, &cr)
+		}
+		if m := regexp.MustCompile(`(?m)^(fatal error: .*|panic: .*)$`).FindString(string(outb)); m != "" {
+			res.Fail("CRASH "+m, "the queue stress crashed:\n"+tail(string(outb), 6000), scen)
+			continue
+		}
+		if rerr != nil || werr != nil || !cr.Complete {
+			res.Infra("queue stress %d: %v / %v: %s", qi, werr, rerr, tail(string(outb), 1500))
+			continue
+		}
+		for _, f := range cr.Failures {
+			res.Fail(f.Canonical, f.Detail, scen)
+			res.Count("failure:" + f.Kind)
+		}
+		var rtxt strings.Builder
+		files, _ := filepath.Glob(filepath.Join(dir, "race.*"))
+		for _, f := range files {
+			if b, err := os.ReadFile(f); err == nil {
+				rtxt.Write(b)
+			}
+		}
+		rtxt.Write(outb)
+		for _, r := range parseRaces(rtxt.String()) {
+			a0, a1 := firstNonRuntime(r.acc[0].frames), firstNonRuntime(r.acc[1].frames)
+			if isGluon(a0) || isGluon(a1) {
+				p := []string{gluonPath(r.acc[0].frames), gluonPath(r.acc[1].frames)}
+				sort.Strings(p)
+				res.Fail("DATA RACE "+p[0]+" / "+p[1], r.text, scen)
+				res.Count("failure:race")
+			}
+		}
+		res.Distribution["queues-closed"] += cr.Stats["queues-closed"]
+		res.Nontrivial(fmt.Sprintf("queue-stress race=%v seed=%d", q.race, seed))
+	}
+	os.Remove(plain)
 
 	nScen := ctx.Budget(3, 12)
 	runMs := 2000
